@@ -122,6 +122,31 @@ pub fn gen_c26(ctx: &Ctx) -> Report {
         writeln!(f, "{}", json!({"k": "ser", "legacy": hx(&legacy), "backrefs": hx(&br), "s2026": hx(&s26)})).unwrap();
         m += 1;
     }
+    // every small-integer boundary (2^k - 1, 2^k, 2^k + 1 and their negatives, k <= 34) as an atom and inside a pair:
+    // in-place atoms of every byte length, with and without a leading sign byte
+    {
+        let mut vals: Vec<i128> = vec![];
+        for k in 0..=34u32 {
+            for d in [-1i128, 0, 1] {
+                vals.push((1i128 << k) + d);
+                vals.push(-((1i128 << k) + d));
+            }
+        }
+        vals.sort();
+        vals.dedup();
+        for v in vals {
+            let at = crate::tree::int_atom(v);
+            for t in [at.clone(), crate::tree::cons(at.clone(), crate::tree::atom(&[1]))] {
+                let mut a = Allocator::new();
+                let node = tree::build(&mut a, &t);
+                let legacy = node_to_bytes(&a, node).unwrap();
+                let br = node_to_bytes_backrefs(&a, node).unwrap();
+                let s26 = serialize_2026(&a, node, 0).unwrap();
+                writeln!(f, "{}", json!({"k": "ser", "legacy": hx(&legacy), "backrefs": hx(&br), "s2026": hx(&s26)})).unwrap();
+                m += 1;
+            }
+        }
+    }
     // byte strings through every deserializer
     let all = all_bytes();
     let l = ctx.pick(2usize, 3);
